@@ -28,6 +28,9 @@ CONSTANTS
   FutNames,       \* names of suspension futures
   StreamOrder,    \* the streams as a sequence (canonical order for num_events lines)
   DevOrder,       \* the devices as a sequence (canonical order for set-iteration device calls)
+  Suspenders,     \* names of suspender objects (SuspendBoolHigh-like: trip on a truthy value, release on a falsy one)
+  SigOf,          \* [suspender -> name of the signal it watches]   (at most one suspender per signal)
+  SusFuts,        \* [suspender -> sequence of future names]: the asyncio.Event of its n-th trip
   AsyncDevs       \* devices whose stop()/pause()/resume() are coroutines that really suspend (ophyd-async style):
                   \* every such call is a further parking place of the run task (pc = "aops")
 
@@ -59,7 +62,9 @@ vars == <<S, obs>>
 (* events *)
 Ev(k, a, b, c, d, m, n) == <<k, a, b, c, d, m, n>>
 EvState(o, n) == Ev("state", o, n, "", "", 0, 0)
-EvMsg(m) == Ev("msg", m.cmd, m.obj, m.run, m.a, m.mid, 0)
+SusFutSet == UNION {{SusFuts[x][i] : i \in 1..Len(SusFuts[x])} : x \in Suspenders}
+\* (the recorder cannot name a suspender's private asyncio.Event: its waits are logged with an empty argument)
+EvMsg(m) == Ev("msg", m.cmd, m.obj, m.run, IF m.cmd \in {"wait_for", "_start_suspender"} /\ m.a \in SusFutSet THEN "" ELSE m.a, m.mid, 0)
 EvDoc(name, stream, status, seq, ord) == Ev("doc", name, stream, status, "", seq, ord)
 EvDev(d, op, arg, n) == Ev("dev", d, op, arg, "", n, 0)
 EvGen(inp, val, react) == Ev("gen", inp, val, react, "", 0, 0)
@@ -117,6 +122,12 @@ InitS ==
     uids |-> 0,
     lateRet |-> "",         \* an abort/stop/halt call from another thread that is itself waiting for the run to end
     recIntr |-> FALSE,      \* RE.record_interruptions (set before the call)
+    sus |-> [x \in Suspenders |-> [inst |-> FALSE, tripped |-> FALSE, ev |-> 0, gen |-> 0]],   \* suspender objects
+    sigv |-> [x \in Suspenders |-> 0],      \* current value of the signal each suspender watches
+    relq |-> {},            \* futures whose release (ev.set) is scheduled on the loop
+    cbq |-> <<>>,           \* <<suspender, value>>: signal changes whose suspender callback has not run yet
+    susq |-> <<>>,          \* futures whose request_suspend (scheduled by a suspender's callback) has not landed yet
+    pendRet |-> <<>>,       \* suspender operations not yet reported complete
     pend |-> <<>>,          \* device operations <<device, op>> still to do when parked inside an awaiting device call
     cont |-> "",            \* what the parked sequence of device operations belongs to: "pausing" | "susp" | "resume" | "fin"
     planRet |-> FALSE ]     \* the plan ran to completion (StopIteration out of the last generator)
@@ -211,14 +222,24 @@ Pop1(q) == SubSeq(q, 1, Len(q) - 1)
 (* caller-side actions (main thread) *)
 
 \* RE(plan): 908-981.  p0 = initial program state of the environment generator.
+\* Suspenders that are tripped when the call starts: the plan starts below a wait for their futures (925-966; modelled
+\* for one tripped suspender at a time)
+RECURSIVE TrippedFrom(_, _)
+TrippedFrom(s, X) == IF X = {} THEN <<>>
+                     ELSE LET x == CHOOSE y \in X : TRUE
+                          IN (IF s.sus[x].inst /\ s.sus[x].tripped /\ s.sus[x].ev # 0 THEN <<SusFuts[x][s.sus[x].ev]>> ELSE <<>>) \o TrippedFrom(s, X \ {x})
+TrippedFuts(s) == TrippedFrom(s, Suspenders)
 Call(p0, ri) ==
   /\ S.caller.phase = "idle" /\ S.st = "idle" /\ S.pc \in {"none", "done"}
+  /\ Len(TrippedFuts(S)) <= 1
   /\ S' = [S EXCEPT !.caller = [phase |-> "blocked", op |-> "run"],
                     !.deferred = FALSE, !.exc = None, !.exitStatus = "success", !.interrupted = FALSE,
                     !.cacheOn = TRUE, !.cache = <<>>,
                     !.staged = {}, !.moved = {}, !.seen = {}, !.uids = 0,
                     !.groups = [g \in {} |-> {}],
-                    !.gens = <<EnvGen(p0)>>, !.resps = <<Val(None)>>,
+                    !.gens = IF TrippedFuts(S) = <<>> THEN <<EnvGen(p0)>>
+                             ELSE <<EnvGen(p0), ListGen(<<Msg("wait_for", "", "", TrippedFuts(S)[1])>>)>>,
+                    !.resps = IF TrippedFuts(S) = <<>> THEN <<Val(None)>> ELSE <<Val(None), Val(None)>>,
                     !.hasTask = FALSE, !.taskRes = "none", !.taskExc = None, !.exitExc = None, !.planRet = FALSE,
                     !.permit = TRUE, !.blocking = FALSE, !.cancel = FALSE, !.stashed = None, !.lateRet = "",
                     !.pc = "start", !.recIntr = ri]
@@ -285,25 +306,29 @@ ReqPause(defer) ==
 
 \* request_suspend -> _request_suspend 1225-1251 (its own task on the loop; its errors are swallowed there)
 StartSuspMsg(f, pre, post) == [Msg("_start_suspender", "", "", f) EXCEPT !.pre = pre, !.post = post]
+\* the effect of _request_suspend on state s: [s |-> new state, ev |-> state events]
+SuspendEffect(s, f, pre, post) ==
+  LET notRes == ~s.cacheOn
+      wasPaused == s.st = "paused"
+      \* branch 1 (not resumable): _interrupted, _exception := FailedPause, checked state := aborting, cancel unless paused
+      s1ok == notRes /\ "aborting" \in Table[s.st]
+      dies1 == notRes /\ "aborting" \notin Table[s.st]     \* the setter raises: the coroutine dies there
+      st1 == IF s1ok THEN "aborting" ELSE s.st
+      ev1 == IF s1ok THEN <<EvState(s.st, "aborting")>> ELSE <<>>
+      push == ~dies1
+      \* then: push the _start_suspender generator; if not paused: checked state := suspending, cancel
+      s2try == push /\ st1 # "paused"
+      s2ok == s2try /\ "suspending" \in Table[st1]
+      st2 == IF s2ok THEN "suspending" ELSE st1
+      ev2 == IF s2ok THEN <<EvState(st1, "suspending")>> ELSE <<>>
+      s0 == [s EXCEPT !.interrupted = (@ \/ notRes), !.exc = IF notRes THEN "FailedPause" ELSE @,
+                      !.st = st2, !.cancel = (@ \/ (s.hasTask /\ ((s1ok /\ ~wasPaused) \/ s2ok)))]
+  IN [s |-> IF push THEN Push(s0, ListGen(<<StartSuspMsg(f, pre, post)>>), Val(None)) ELSE s0, ev |-> ev1 \o ev2]
 ReqSuspendA(f, pre, post, preId, postId) ==
   /\ AtPark /\ TaskAlive /\ f \in FutNames
-  /\ LET notRes == ~S.cacheOn
-         wasPaused == S.st = "paused"
-         \* branch 1 (not resumable): _interrupted, _exception := FailedPause, checked state := aborting, cancel unless paused
-         s1ok == notRes /\ "aborting" \in Table[S.st]
-         dies1 == notRes /\ "aborting" \notin Table[S.st]     \* the setter raises: the coroutine dies there
-         st1 == IF s1ok THEN "aborting" ELSE S.st
-         ev1 == IF s1ok THEN <<EvState(S.st, "aborting")>> ELSE <<>>
-         push == ~dies1
-         \* then: push the _start_suspender generator; if not paused: checked state := suspending, cancel
-         s2try == push /\ st1 # "paused"
-         s2ok == s2try /\ "suspending" \in Table[st1]
-         st2 == IF s2ok THEN "suspending" ELSE st1
-         ev2 == IF s2ok THEN <<EvState(st1, "suspending")>> ELSE <<>>
-         s0 == [S EXCEPT !.interrupted = (@ \/ notRes), !.exc = IF notRes THEN "FailedPause" ELSE @,
-                         !.st = st2, !.cancel = (@ \/ (S.hasTask /\ ((s1ok /\ ~wasPaused) \/ s2ok)))]
-     IN /\ S' = IF push THEN Push(s0, ListGen(<<StartSuspMsg(f, pre, post)>>), Val(None)) ELSE s0
-        /\ obs' = ReqObsA("suspend", f, preId, postId, ev1 \o ev2, "ok")
+  /\ LET e == SuspendEffect(S, f, pre, post)
+     IN /\ S' = e.s
+        /\ obs' = ReqObsA("suspend", f, preId, postId, e.ev, "ok")
 
 ReqSuspend(f, pre, post) == ReqSuspendA(f, pre, post, "", "")
 
@@ -312,6 +337,68 @@ Release(f) ==
   /\ f \in FutNames /\ f \notin S.futs
   /\ S' = [S EXCEPT !.futs = @ \cup {f}]
   /\ obs' = ReqObsA("release", f, "", "", <<>>, "ok")
+
+\* ---- suspender objects (bluesky.suspenders.SuspenderBase with a boolean condition), driven through the public API ----
+\* SuspenderBase.__call__(value) for suspender x on state s (runs in the thread that changed the signal).  The suspension it
+\* asks for is only SCHEDULED on the loop (susq): the engine's state is tested here, the request lands later (SusLand)
+SusCallback(s, x, v) ==
+  LET u == s.sus[x] IN
+  IF ~u.inst THEN s
+  ELSE IF v # 0 THEN
+       \* condition tripped: an asyncio.Event is made the first time; a suspension is requested ONLY if the engine is 'running'
+       IF u.ev # 0 THEN [s EXCEPT !.sus[x].tripped = TRUE]
+       ELSE LET g == u.gen + 1
+                s1 == [s EXCEPT !.sus[x] = [u EXCEPT !.tripped = TRUE, !.ev = g, !.gen = g]]
+            IN IF s.st = "running" THEN [s1 EXCEPT !.susq = Append(@, SusFuts[x][g])] ELSE s1
+  ELSE \* back to nominal: the event's set() is scheduled on the loop (sleep = 0), the suspender forgets the event
+       [s EXCEPT !.sus[x] = [u EXCEPT !.tripped = FALSE, !.ev = 0],
+                 !.relq = IF u.ev # 0 THEN @ \cup {SusFuts[x][u.ev]} ELSE @]
+SusGenOK(x) == S.sus[x].gen < Len(SusFuts[x])
+AnyTime == AtPark \/ ~TaskAlive
+SusReq(kind, name, v) == <<Ev("req", kind, name, "", "", v, 0)>>
+\* RE.install_suspender(x): subscribes to the signal with run=True -- the callback runs at once with the current value
+SusInstall(x) ==
+  /\ x \in Suspenders /\ SusGenOK(x) /\ AnyTime
+  /\ S' = [SusCallback([S EXCEPT !.sus[x].inst = TRUE], x, S.sigv[x]) EXCEPT !.pendRet = Append(@, "sus_install")]
+  /\ obs' = SusReq("sus_install", x, 0)
+\* RE.remove_suspender(x): unsubscribes, releases the suspension it holds, forgets the engine; harmless when not installed
+SusRemove(x) ==
+  /\ x \in Suspenders /\ AnyTime
+  /\ LET u == S.sus[x]
+         s1 == IF u.inst THEN [S EXCEPT !.sus[x] = [u EXCEPT !.inst = FALSE, !.tripped = FALSE, !.ev = 0],
+                                        !.relq = IF u.ev # 0 THEN @ \cup {SusFuts[x][u.ev]} ELSE @]
+               ELSE S
+     IN S' = [s1 EXCEPT !.pendRet = Append(@, "sus_remove")]
+  /\ obs' = SusReq("sus_remove", x, 0)
+\* the watched signal changes (sig.put(v)): logged, then the subscribed suspender's callback runs in the caller's thread --
+\* concurrently with the loop thread, so a request scheduled just before may land before the callback tests the state
+SigPut(sg, v) ==
+  /\ AnyTime /\ v \in {0, 1}
+  /\ \E x \in Suspenders : SigOf[x] = sg
+  /\ LET x == CHOOSE y \in Suspenders : SigOf[y] = sg
+     IN S' = [S EXCEPT !.sigv[x] = v, !.cbq = Append(@, <<x, v>>), !.pendRet = Append(@, "sig_put")]
+  /\ obs' = SusReq("sig_put", sg, v)
+SusCb ==
+  /\ S.cbq # <<>> /\ AnyTime
+  /\ LET x == Head(S.cbq)[1] v == Head(S.cbq)[2]
+     IN /\ SusGenOK(x)
+        /\ S' = SusCallback([S EXCEPT !.cbq = Tail(@)], x, v)
+  /\ obs' = <<>>
+\* a scheduled request_suspend lands on the loop (1225-1251, as ReqSuspend)
+SusLand ==
+  /\ S.susq # <<>> /\ AnyTime
+  /\ LET e == SuspendEffect([S EXCEPT !.susq = Tail(@)], Head(S.susq), <<>>, <<>>)
+     IN S' = e.s /\ obs' = e.ev
+\* the scheduled ev.set() runs on the loop (not logged: a silent step)
+SusRelease(f) ==
+  /\ f \in S.relq /\ AnyTime
+  /\ S' = [S EXCEPT !.relq = @ \ {f}, !.futs = @ \cup {f}]
+  /\ obs' = <<>>
+\* the harness reports the operation as complete once everything it scheduled on the loop has landed
+SusRet ==
+  /\ S.pendRet # <<>> /\ S.susq = <<>> /\ S.cbq = <<>>
+  /\ S' = [S EXCEPT !.pendRet = Tail(@)]
+  /\ obs' = <<Ev("reqret", Head(S.pendRet), "ok", "", "", 0, 0)>>
 
 \* RE.abort()/stop()/halt() from another thread while a call is in progress: 1330 / 1374 / 1438
 ReqTerminate(op) ==
